@@ -221,6 +221,11 @@ class C20(Check):
         # chain: the accumulated rotation is the rotation by the summed angle.  The accumulated rotation has been
         # queried (axis / angle, string form) in the previous step, so it is used as the RECEIVER of the composition:
         # anything memoised on a queried rotation must not survive into what is composed from it.
+        if axis == "2d" and verify:
+            R2i = Rotation(np.array([[0, 1], [-1, 0]]))
+            R2i.set_rotation_matrix(rot2(np.deg2rad(theta)))
+            if np.abs(np.asarray(R2i.rotation_matrix, dtype=float) - rot2(np.deg2rad(theta))).max() > 1e-12:
+                fails.append(Failure(where, "set-rotation-matrix-on-integer-matrix-receiver", "theta=%s: stored matrix differs from the one that was set" % theta))
         prev = st["R"]
         str(prev)
         alt = r.compose_after(prev)  # fresh receiver
@@ -340,6 +345,15 @@ class C20(Check):
             fails.append(Failure("quaternion", "matrix-round-trip", "matrix -> quaternion -> matrix differs by %.3g (axis %s angle %.9f)" % (np.abs(R3.rotation_matrix - M).max(), a, t)))
         if abs(np.linalg.norm(q2) - 1) > 1e-9 or q2[0] < -1e-9:
             fails.append(Failure("quaternion", "canonical", "as_vector() is not a unit quaternion with non-negative scalar part: %s" % q2))
+        # the receiver of from_vector in another legal form: a rotation built from an INTEGER-dtype matrix (the repository's
+        # own tests build rotations from integer literals); its storage must not keep that dtype for the new parameters
+        Rint = Rotation(np.array([[0, -1, 0], [1, 0, 0], [0, 0, 1]]))
+        R5 = Rint.from_vector(q.copy())
+        if np.abs(np.asarray(R5.rotation_matrix, dtype=float) - M).max() > 1e-9:
+            fails.append(Failure("quaternion", "from-vector-on-integer-matrix-receiver", "Rotation(int matrix).from_vector(q) gives a matrix differing by %.3g from the rotation of q" % np.abs(np.asarray(R5.rotation_matrix, dtype=float) - M).max()))
+        R6 = Rotation(np.array([[0, -1, 0], [1, 0, 0], [0, 0, 1]]))
+        R6.set_rotation_matrix(M.copy())
+        fails.extend(f for f in self._axis_angle_oracle(R6, "axis-angle-3d", true_axis=a, true_angle=t) if abs(abs(t) - np.pi) > 1e-3)
         # a scaled quaternion describes the same rotation
         R4 = Rotation.init_3d_from_quaternion(2.5 * q)
         if np.abs(R4.rotation_matrix - M).max() > 1e-12:
